@@ -99,6 +99,15 @@ def clamp_index(value: Union[int, float], length: int) -> int:
     return int(value)
 
 
+class _UnwindToHandler(Exception):
+    """Raised by VM._throw when the handler that catches a script exception lies below
+    script code that natives are running (array callbacks, accessors, conversions).
+
+    The VM state is already positioned at the handler; the exception only takes the
+    host stack (the natives and their interpreter loops) back to the loop that owns
+    the handler's frame."""
+
+
 @dataclass
 class ClosureCell:
     """A cell for closure variable - allows sharing between scopes."""
@@ -181,6 +190,8 @@ class VM:
         self.exception: Optional[JSValue] = None
         # (frame_idx, catch_ip, operand stack depth at TRY_START)
         self.exception_handlers: List[Tuple[int, int, int]] = []
+        # call stack depth at which each active _run_callback loop was entered
+        self._callback_bases: List[int] = []
 
     def run(self, compiled: CompiledFunction) -> JSValue:
         """Run compiled bytecode and return result."""
@@ -287,24 +298,32 @@ class VM:
 
             if _verif_hook is not None:
                 _verif_hook(self, "main", op, arg, frame)
-            # Execute opcode - wrap in try/except to catch Python JS exceptions
             try:
-                self._execute_opcode(op, arg, frame)
-            except JSTypeError as e:
-                # Convert Python JSTypeError to JavaScript TypeError
-                self._handle_python_exception("TypeError", str(e))
-            except JSReferenceError as e:
-                # Convert Python JSReferenceError to JavaScript ReferenceError
-                self._handle_python_exception("ReferenceError", str(e))
-            except JSRangeError as e:
-                # Convert Python JSRangeError to JavaScript RangeError
-                self._handle_python_exception("RangeError", str(e))
+                self._execute_guarded(op, arg, frame)
+            except _UnwindToHandler:
+                pass  # a native was abandoned; execution continues at the handler
 
             # Check if frame was popped (return)
             if not self.call_stack:
                 break
 
         return self.stack.pop() if self.stack else UNDEFINED
+
+    def _execute_guarded(
+        self, op: OpCode, arg: Optional[int], frame: CallFrame
+    ) -> None:
+        """Execute a single opcode; host-level JS errors become script exceptions."""
+        try:
+            self._execute_opcode(op, arg, frame)
+        except JSTypeError as e:
+            # Convert Python JSTypeError to JavaScript TypeError
+            self._handle_python_exception("TypeError", str(e))
+        except JSReferenceError as e:
+            # Convert Python JSReferenceError to JavaScript ReferenceError
+            self._handle_python_exception("ReferenceError", str(e))
+        except JSRangeError as e:
+            # Convert Python JSRangeError to JavaScript RangeError
+            self._handle_python_exception("RangeError", str(e))
 
     def _execute_opcode(self, op: OpCode, arg: Optional[int], frame: CallFrame) -> None:
         """Execute a single opcode."""
@@ -2373,9 +2392,11 @@ class VM:
         if self.native_depth >= MAX_NATIVE_DEPTH:
             raise MemoryLimitError("Maximum call stack size exceeded")
         self.native_depth += 1
+        self._callback_bases.append(len(self.call_stack))
         try:
             return self._run_callback(callback, args, this_val)
         finally:
+            self._callback_bases.pop()
             self.native_depth -= 1
 
     def _run_callback(
@@ -2444,7 +2465,11 @@ class VM:
 
                 if _verif_hook is not None:
                     _verif_hook(self, "cb", op, arg, frame)
-                self._execute_opcode(op, arg, frame)
+                try:
+                    self._execute_guarded(op, arg, frame)
+                except _UnwindToHandler:
+                    if len(self.call_stack) <= call_stack_len:
+                        raise  # the handler is below this callback: give up the native
 
             # Get result from stack
             if len(self.stack) > stack_len:
@@ -2607,6 +2632,11 @@ class VM:
 
             # Push exception value
             self.stack.append(exc)
+
+            # Natives that were running script code above the handler's frame
+            # (forEach and friends, accessors, conversions) must not resume
+            if self._callback_bases and frame_idx < self._callback_bases[-1]:
+                raise _UnwindToHandler()
         else:
             # Uncaught exception
             if isinstance(exc, str):
